@@ -399,6 +399,27 @@ def do(op: dict) -> str:
         except Exception as e:  # noqa: BLE001
             return f"error={err_class(e)}"
         return "ok"
+    if o == "verbosity":
+        # utils.logging.verbosity_to_loguru_level on any Python value, and Solver.set_verbosity (integer or name) on a real solver:
+        # the integer it stores and the level of the loguru handler it installs
+        from loguru import logger
+        from mdpax.utils.logging import verbosity_to_loguru_level
+        names = ["TRACE", "DEBUG", "INFO", "WARNING", "ERROR"]
+        try:
+            if "set" in op:
+                sv = SOLVERS.get("_verbosity_probe")
+                if sv is None:
+                    from mdpax.problems.forest import Forest
+                    sv = SOLVERS["_verbosity_probe"] = solver_class("vi")(Forest(S=3), gamma=0.5, epsilon=0.1, verbose=0)
+                sv.set_verbosity(op["set"])
+                hs = list(logger._core.handlers.values())
+                lv = [n for n in names if len(hs) == 1 and logger.level(n).no == hs[0].levelno]
+                out = f"ok verbose={sv.verbose} level={lv[0] if lv else '?'}"
+                sv.set_verbosity(0)
+                return out
+            return f"ok level={verbosity_to_loguru_level(op['value'])}"
+        except Exception as e:  # noqa: BLE001
+            return f"error={err_class(e)}"
     if o == "configdump":
         from omegaconf import OmegaConf
         kind, sv = SOLVERS[op["sid"]]
